@@ -21,7 +21,8 @@ EXPLANATION = (
     "QBNumberCast tests the range of the very value it converts (the rounded one), sibling rule over all "
     "impls.  (R8) an argument passed by reference is accepted only with the parameter's exact type, for "
     "each of the three by-reference forms (the write-back after the call stores without a cast; shared "
-    "with C12.R4).  (R12) every result of a float + - * / on two run-time operands and every narrowing of a double to a single is tested with is_finite before it becomes a value (Overflow instead of infinity); R7 also covers the functions of the value arithmetic that pick the narrowest type for a float result (no unguarded, saturating float-to-integer conversion).  (R13) a size or address narrowed to i32 in the VM's value code (LEN, VARPTR, VARSEG, INSTR) is compared with a bound first.")
+    "with C12.R4).  (R12) every result of a float + - * / on two run-time operands and every narrowing of a double to a single is tested with is_finite before it becomes a value (Overflow instead of infinity); R7 also covers the functions of the value arithmetic that pick the narrowest type for a float result (no unguarded, saturating float-to-integer conversion).  (R13) a size or address narrowed to i32 in the VM's value code (LEN, VARPTR, VARSEG, INSTR) is compared with a bound first."
+    " (R7, extended) the range test of a narrowing conversion is followed into the helper of the same file that performs the conversion.")
 NOT_DECIDED = [
     "rounding direction and the exact boundary constants of each conversion (value-level)",
     "C06.R3 covers payloads computed by integer arithmetic inside the constructing function; values "
